@@ -1,6 +1,7 @@
 #!/bin/bash
 # Runs every kept seed against the check(s) of its property; prints one line per seed.
-cd /verif
+V=$(cd "$(dirname "$0")/.." && pwd); cd $V
+(cd $V/mirfacts && cargo build --release --offline -q) 2>/dev/null
 for d in ${SEEDS:-seeded/*/}; do
   id=$(basename $d); prop=${id%-*}
   props="$prop"
@@ -11,7 +12,7 @@ import json;m=json.load(open('$d/meta.json'));print(' '.join(m.get('also_check',
 import json;m=json.load(open('$d/meta.json'));print(m.get('check_configs',''))" 2>/dev/null)
   for P in $props $extra; do
     if ./check $P --explain /dev/null >/dev/null 2>&1; then :; fi
-    r=$(MAXL=0 CONFIGS=${CONFIGS:-$cc} tools/run_seed.sh /verif/$d/patch.diff $P 2>&1 | grep "^== " | tr '\n' ' ')
+    r=$(MAXL=0 CONFIGS=${CONFIGS:-$cc} tools/run_seed.sh $V/$d/patch.diff $P 2>&1 | grep "^== " | tr '\n' ' ')
     out="$out $r"
   done
   echo "$id $out"
